@@ -149,7 +149,9 @@ _PAIR = {"mx1": ("m1", "m3"), "mx2": ("m1", "m2"), "mx3": ("m1", "m2"), "mx4": (
 for _n, (_x, _y) in _PAIR.items():
     DOCS[_n] = [MX_DOCS[0],
                 'doc(p(%s("a"), %s(%s("b")), "c"), plain(m1("d"), pic()))' % (_x, _x, _y),
-                'doc(p(%s("ab"), %s("c")), p(%s(pic())))' % (_x, _y, _x)]
+                'doc(p(%s("ab"), %s("c")), p(%s(pic())))' % (_x, _y, _x),
+                'doc(p(m1("a")), plain(m1("b")), p(m1("c"), "d"))',
+                'doc(p(m3("a")), plain(m3("b"), "e"), p(m3("c")))']
 
 # slices: (source template expression, from, to) - cut with the oracle-checked Node.slice
 SLICES = {
